@@ -2266,6 +2266,11 @@ var proverBudget = func() int {
 // counterpart of proveLE's phi split for phis that only occur in conditions
 // (nested min/max clamps).
 func (fi *FuncInfo) proveByCases(goal Lin, at *ssa.BasicBlock, extra []Fact) bool {
+	return fi.proveByCasesFrom(goal, at, fi.condsAt(at), extra)
+}
+
+// proveByCasesFrom: proveByCases with explicit initial conditions (a path to `at`).
+func (fi *FuncInfo) proveByCasesFrom(goal Lin, at *ssa.BasicBlock, conds0 []Cond, extra []Fact, via ...*ssa.BasicBlock) bool {
 	isHeader := func(b *ssa.BasicBlock) bool {
 		for _, lp := range fi.loops {
 			if lp.Header == b {
@@ -2280,7 +2285,7 @@ func (fi *FuncInfo) proveByCases(goal Lin, at *ssa.BasicBlock, extra []Fact) boo
 		eqs    []Fact
 		chosen map[*ssa.BasicBlock]bool
 	}
-	work := []cs{{conds: fi.condsAt(at), chosen: map[*ssa.BasicBlock]bool{}}}
+	work := []cs{{conds: conds0, chosen: map[*ssa.BasicBlock]bool{}}}
 	nCases := 0
 	for len(work) > 0 {
 		c := work[len(work)-1]
@@ -2303,6 +2308,20 @@ func (fi *FuncInfo) proveByCases(goal Lin, at *ssa.BasicBlock, extra []Fact) boo
 				atoms[a] = true
 			}
 		}
+		// value facts of the mentioned values (e.g. r ≤ len(arg) of a compare helper) may mention further phis
+		{
+			var vals []ssa.Value
+			for a := range atoms {
+				if v := fi.atomValue(a); v != nil {
+					vals = append(vals, v)
+				}
+			}
+			for _, vf := range fi.valueFacts(vals) {
+				for a := range vf.L.t {
+					atoms[a] = true
+				}
+			}
+		}
 		var names []string
 		for a := range atoms {
 			names = append(names, a)
@@ -2311,7 +2330,16 @@ func (fi *FuncInfo) proveByCases(goal Lin, at *ssa.BasicBlock, extra []Fact) boo
 		var pick *ssa.Phi
 		for _, a := range names {
 			ph, ok := av[a].(*ssa.Phi)
-			if !ok || isHeader(ph.Block()) || c.chosen[ph.Block()] || !(ph.Block() == at || ph.Block().Dominates(at)) {
+			if !ok || isHeader(ph.Block()) || c.chosen[ph.Block()] {
+				continue
+			}
+			onPath := ph.Block() == at || ph.Block().Dominates(at)
+			for _, v := range via {
+				if ph.Block() == v || ph.Block().Dominates(v) {
+					onPath = true
+				}
+			}
+			if !onPath {
 				continue
 			}
 			pick = ph
